@@ -7,6 +7,10 @@ Model of image de-duplication in the PDF:
 * `weasyprint/pdf/__init__.py::_use_references` + `_reference_resources`: the XObject pass and the
   Pattern pass, in dictionary order, recursing into the `Resources` of groups and patterns.
 
+`buildList` gives the `Resources` dictionaries of every content stream (page, groups, patterns): the name of an
+image is entered in the resources of the stream that paints it on EVERY `add_image`, before the
+`already stored in document` early return (`Lemmas/ImageScopes.lean`, `Props/C13b.lean::painted_images_defined`;
+the driver prints the tree, compared with the real dictionaries / the PDF file).
 A drawing is a tree (`Draw`): image draws, groups and patterns with their own bodies.  All pages
 share one `Resources` dictionary, so a document is the concatenation of its pages' draws.
 No Mathlib: linked into `driver_c13`.
